@@ -5,7 +5,7 @@
  */
 #include "harness.h"
 /* every harness function is compiled only when its H_<NAME> macro is set (props/C06.py adds it to every configuration) */
-#if defined(H_VBT) || defined(H_VBA)
+#if defined(H_VBT) || defined(H_VBA) || defined(H_VBT0) || defined(H_VBA3)
 #include "C06_view.h"
 #else
 #include "C06_broadcast.h"
@@ -19,21 +19,24 @@
 #ifndef MAXE
 #define MAXE 4
 #endif
+#ifndef CAP
+#define CAP 4     /* capacity of the harness' shape arrays (8 for the static_vector<size_t,8> instantiations) */
+#endif
 #define CAT2(a,b) a##b
 #define CAT(a,b) CAT2(a,b)
 
 /* NumPy broadcast of two shapes; returns 1 on success and writes the result (dim *nr) */
 static int np_bshape(const u64* a, u64 na, const u64* b, u64 nb, u64* e, u64* nr){
   u64 n = na > nb ? na : nb; int ok = 1; *nr = n;
-  for (u64 k = 0; k < 4; k++) if (k < n){
+  for (u64 k = 0; k < CAP; k++) if (k < n){
     u64 x = k < na ? a[na-1-k] : 1, y = k < nb ? b[nb-1-k] : 1;
     if (x != y && x != 1 && y != 1) ok = 0;
     e[n-1-k] = x > y ? x : y;
   }
   return ok;
 }
-static void in_shape4(u64* s){ for (int i = 0; i < 4; i++) s[i] = in_u64(1, MAXE); }
-static int same(const u64* x, u64 nx, const u64* y, u64 ny){ if (nx != ny) return 0; for (u64 i = 0; i < 4; i++) if (i < nx && x[i] != y[i]) return 0; return 1; }
+static void in_shape4(u64* s){ for (int i = 0; i < CAP; i++) s[i] = in_u64(1, MAXE); }
+static int same(const u64* x, u64 nx, const u64* y, u64 ny){ if (nx != ny) return 0; for (u64 i = 0; i < CAP; i++) if (i < nx && x[i] != y[i]) return 0; return 1; }
 
 /* ---- pairs: success iff NumPy-compatible, result = per-axis max, symmetry; with IDEM also idempotence and absorption ---- */
 #ifdef H_PAIR
@@ -43,7 +46,7 @@ static int same(const u64* x, u64 nx, const u64* y, u64 ny){ if (nx != ny) retur
 #define IDEM 1
 #endif
 void h_pair(void){
-  u64 a[4], b[4], o[4] = {0,0,0,0}, o2[4] = {0,0,0,0}, e[4] = {0,0,0,0}, no = 0, no2 = 0, nr = 0;
+  u64 a[CAP], b[CAP], o[CAP] = {0}, o2[CAP] = {0}, e[CAP] = {0}, no = 0, no2 = 0, nr = 0;
 #ifdef NA
   u64 na = NA;
 #else
@@ -55,19 +58,25 @@ void h_pair(void){
   u64 nb = in_u64(MIND, MAXD);
 #endif
   in_shape4(a); in_shape4(b);
+#ifdef FIXA     /* operand a is a compile-time constant shape of the instantiation (per-query constant) */
+  { u64 fa[CAP] = {FIXA}; for (int i = 0; i < CAP; i++) a[i] = (u64)i < na ? fa[i] : 1; }
+#endif
+#ifdef FIXB
+  { u64 fb[CAP] = {FIXB}; for (int i = 0; i < CAP; i++) b[i] = (u64)i < nb ? fb[i] : 1; }
+#endif
   int ok = np_bshape(a, na, b, nb, e, &nr);
   int r = BS(a, na, b, nb, o, &no);
   ASSERT((r != 0) == ok, "broadcast succeeds iff the right-aligned extents are equal or 1");
-  if (r){ ASSERT(no == nr, "result dim == max dim"); ASSERT(same(o, no, e, nr), "result extent == per-axis maximum"); for (int i = 0; i < 4; i++) OBS(o[i]); }
+  if (r){ ASSERT(no == nr, "result dim == max dim"); ASSERT(same(o, no, e, nr), "result extent == per-axis maximum"); for (int i = 0; i < CAP; i++) OBS(o[i]); }
 #ifndef NOSYM   /* NOSYM (std::vector kinds, to halve the formula): each argument order is its own query against the (symmetric) NumPy rule */
   int r2 = BSR(b, nb, a, na, o2, &no2);
   ASSERT((r != 0) == (r2 != 0), "symmetric: same success");
   if (r && r2) ASSERT(same(o, no, o2, no2), "symmetric: same result");
 #endif
 #ifdef IDEM
-  { u64 t[4] = {0,0,0,0}, nt = 0;
+  { u64 t[CAP] = {0}, nt = 0;
     ASSERT(BS(a, na, a, na, t, &nt) != 0 && same(t, nt, a, na), "idempotent: a with itself is a");
-    if (r){ u64 t2[4] = {0,0,0,0}, nt2 = 0;
+    if (r){ u64 t2[CAP] = {0}, nt2 = 0;
       ASSERT(BS(a, na, o, no, t2, &nt2) != 0 && same(t2, nt2, o, no), "absorption: a with the result is the result"); } }
 #endif
   OBS(r);
@@ -78,7 +87,7 @@ void h_pair(void){
 /* ---- None (shape of a number) with a shape: always succeeds, result is the shape ---- */
 #ifdef H_NONE
 void h_none(void){
-  u64 a[4], o[4] = {0,0,0,0}, o2[4] = {0,0,0,0}, no = 0, no2 = 0; u64 na = in_u64(0, MAXD);
+  u64 a[CAP], o[CAP] = {0}, o2[CAP] = {0}, no = 0, no2 = 0; u64 na = in_u64(0, MAXD);
   in_shape4(a);
   ASSERT(k_bs_none_sv(a, na, a, na, o, &no) != 0 && same(o, no, a, na), "None with a shape is the shape");
   ASSERT(k_bs_sv_none(a, na, a, na, o2, &no2) != 0 && same(o2, no2, a, na), "a shape with None is the shape");
@@ -93,8 +102,8 @@ void h_none(void){
 #define B3 sv
 #endif
 void h_triple(void){
-  u64 a[4], b[4], c[4], e1[4] = {0,0,0,0}, e[4] = {0,0,0,0}, n1 = 0, nr = 0;
-  u64 ov[4] = {0,0,0,0}, ol[4] = {0,0,0,0}, orr[4] = {0,0,0,0}, nv = 0, nl = 0, nrr = 0;
+  u64 a[CAP], b[CAP], c[CAP], e1[CAP] = {0}, e[CAP] = {0}, n1 = 0, nr = 0;
+  u64 ov[CAP] = {0}, ol[CAP] = {0}, orr[CAP] = {0}, nv = 0, nl = 0, nrr = 0;
 #ifdef NA
   u64 na = NA;
 #else
@@ -113,24 +122,24 @@ void h_triple(void){
   in_shape4(a); in_shape4(b); in_shape4(c);
   int ok = np_bshape(a, na, b, nb, e1, &n1);
   if (ok) ok = np_bshape(e1, n1, c, nc, e, &nr);
-  int rv = CAT(k_bs3_,B3)(a, na, b, nb, c, nc, ov, &nv);
-  int rl = CAT(k_bs3l_,B3)(a, na, b, nb, c, nc, ol, &nl);
-  int rr = CAT(k_bs3r_,B3)(a, na, b, nb, c, nc, orr, &nrr);
-  ASSERT((rv != 0) == ok, "three shapes broadcast iff NumPy accepts them");
-  ASSERT((rl != 0) == ok && (rr != 0) == ok, "both groupings agree with the variadic call on success/failure");
-  if (ok && rv && rl && rr){
-    ASSERT(same(ov, nv, e, nr), "variadic result == NumPy");
-    ASSERT(same(ol, nl, e, nr), "(a,b),c == NumPy");
-    ASSERT(same(orr, nrr, e, nr), "a,(b,c) == NumPy");
-    for (int i = 0; i < 4; i++) OBS(ov[i]);
-  }
+#ifndef T3ONLY
+#define T3ONLY 0      /* 0: all three calls in one query; 1/2/3: only the variadic / left-grouped / right-grouped call (std::vector kinds: one call per query, all against the same NumPy fold) */
+#endif
+  int rv = ok, rl = ok, rr = ok;
+  if (T3ONLY == 0 || T3ONLY == 1){ rv = CAT(k_bs3_,B3)(a, na, b, nb, c, nc, ov, &nv);
+    ASSERT((rv != 0) == ok, "three shapes broadcast iff NumPy accepts them"); if (rv) ASSERT(same(ov, nv, e, nr), "variadic result == NumPy"); }
+  if (T3ONLY == 0 || T3ONLY == 2){ rl = CAT(k_bs3l_,B3)(a, na, b, nb, c, nc, ol, &nl);
+    ASSERT((rl != 0) == ok, "(a,b),c accepted iff NumPy accepts"); if (rl) ASSERT(same(ol, nl, e, nr), "(a,b),c == NumPy"); }
+  if (T3ONLY == 0 || T3ONLY == 3){ rr = CAT(k_bs3r_,B3)(a, na, b, nb, c, nc, orr, &nrr);
+    ASSERT((rr != 0) == ok, "a,(b,c) accepted iff NumPy accepts"); if (rr) ASSERT(same(orr, nrr, e, nr), "a,(b,c) == NumPy"); }
+  for (int i = 0; i < CAP; i++) OBS(ov[i] + ol[i] + orr[i]);
   OBS(rv);
   REACHED();
 }
 #endif
 #ifdef H_QUAD
 void h_quad(void){
-  u64 a[4], b[4], c[4], d[4], e1[4] = {0,0,0,0}, e2[4] = {0,0,0,0}, e[4] = {0,0,0,0}, n1 = 0, n2 = 0, nr = 0, o[4] = {0,0,0,0}, no = 0;
+  u64 a[CAP], b[CAP], c[CAP], d[CAP], e1[CAP] = {0}, e2[CAP] = {0}, e[CAP] = {0}, n1 = 0, n2 = 0, nr = 0, o[CAP] = {0}, no = 0;
   u64 na = in_u64(MIND, MAXD), nb = in_u64(MIND, MAXD), nc = in_u64(MIND, MAXD), nd = in_u64(MIND, MAXD);
   in_shape4(a); in_shape4(b); in_shape4(c); in_shape4(d);
   int ok = np_bshape(a, na, b, nb, e1, &n1);
@@ -150,7 +159,7 @@ void h_quad(void){
 #define SBT k_sbt_sv_sv
 #endif
 void h_sbt(void){
-  u64 a[4], b[4], o[4] = {0,0,0,0}, no = 0; u8 fr[4] = {0,0,0,0};
+  u64 a[CAP], b[CAP], o[CAP] = {0}, no = 0; u8 fr[CAP] = {0};
 #ifdef NA
   u64 na = NA;
 #else
@@ -163,13 +172,13 @@ void h_sbt(void){
 #endif
   in_shape4(a); in_shape4(b);
   int ok = na <= nb;
-  for (u64 k = 0; k < 4; k++) if (ok && k < na){ u64 x = a[na-1-k], y = b[nb-1-k]; if (x != y && x != 1) ok = 0; }
+  for (u64 k = 0; k < CAP; k++) if (ok && k < na){ u64 x = a[na-1-k], y = b[nb-1-k]; if (x != y && x != 1) ok = 0; }
   int r = SBT(a, na, b, nb, o, &no, fr);
   ASSERT((r != 0) == ok, "broadcast_to accepted iff dim(a) <= dim(b) and every aligned extent of a equals b's or is 1");
   if (r){
     ASSERT(r == 1, "free-axes flags have the dim of the result");
     ASSERT(same(o, no, b, nb), "result shape == target shape");
-    for (u64 i = 0; i < 4; i++) if (i < nb){
+    for (u64 i = 0; i < CAP; i++) if (i < nb){
       int prepended = i < nb - na; u64 x = prepended ? 1 : a[i - (nb - na)];
       ASSERT((fr[i] != 0) == (prepended || x != b[i]), "free axis <=> prepended or stretched");
       OBS(fr[i]);
@@ -186,7 +195,7 @@ void h_sbt(void){
 #define IBT k_ibt_sv
 #endif
 void h_ibt(void){
-  u64 a[4], b[4], idx[4], o[4] = {0,0,0,0}, no = 0;
+  u64 a[CAP], b[CAP], idx[CAP], o[CAP] = {0}, no = 0;
 #ifdef NA
   u64 na = NA;
 #else
@@ -198,13 +207,104 @@ void h_ibt(void){
   u64 nb = in_u64(MIND, MAXD);
 #endif
   in_shape4(a); in_shape4(b);
-  for (int i = 0; i < 4; i++){ idx[i] = in_u64(0, MAXE-1); ASSUME((u64)i >= nb || idx[i] < b[i]); }
+  for (int i = 0; i < CAP; i++){ idx[i] = in_u64(0, MAXE-1); ASSUME((u64)i >= nb || idx[i] < b[i]); }
   int ok = na <= nb;
-  for (u64 k = 0; k < 4; k++) if (ok && k < na){ u64 x = a[na-1-k], y = b[nb-1-k]; if (x != y && x != 1) ok = 0; }
+  for (u64 k = 0; k < CAP; k++) if (ok && k < na){ u64 x = a[na-1-k], y = b[nb-1-k]; if (x != y && x != 1) ok = 0; }
   ASSUME(ok);                       /* the failure side is h_sbt */
   int r = IBT(a, na, b, nb, idx, o, &no);
   ASSERT(r == 1 && no == na, "source index has the source dim");
-  for (u64 j = 0; j < 4; j++) if (j < na){ ASSERT(o[j] == (a[j] == 1 ? 0 : idx[j + (nb - na)]), "source index: the destination index on kept axes, 0 on stretched axes, prepended axes dropped"); OBS(o[j]); }
+  for (u64 j = 0; j < CAP; j++) if (j < na){ ASSERT(o[j] == (a[j] == 1 ? 0 : idx[j + (nb - na)]), "source index: the destination index on kept axes, 0 on stretched axes, prepended axes dropped"); OBS(o[j]); }
+  REACHED();
+}
+#endif
+
+/* ---- view level: shape and ELEMENTS of view::broadcast_to / view::broadcast_arrays over hybrid arrays with symbolic data ---- */
+#if defined(H_VBT) || defined(H_VBA) || defined(H_VBT0) || defined(H_VBA3)
+static void in_cells(u32* d, int n){ for (int i = 0; i < n; i++) d[i] = in_any32(); }
+/* element of a (shape sa, dim sd) that NumPy's broadcast puts at index idx of a result of dim nd: right-aligned, 0 on axes of extent 1 */
+static u64 src_off(const u64* sa, u64 sd, const u64* idx, u64 nd){ u64 off = 0; for (u64 j = 0; j < 3; j++) if (j < sd) off = off * sa[j] + (sa[j] == 1 ? 0 : idx[j + (nd - sd)]); return off; }
+#endif
+#ifdef H_VBT
+#ifndef SD
+#define SD 2
+#define VBT k_vbt2_sv
+#endif
+void h_vbt(void){
+  u64 sa[3] = {1,1,1}, dst[CAP], idx[CAP], os[CAP] = {0}, od = 0; u32 data[27], out = 0;
+  for (int a = 0; a < SD; a++) sa[a] = in_u64(1, MAXE);
+  in_cells(data, 27);
+#ifdef NB
+  u64 nd = NB;
+#else
+  u64 nd = in_u64(MIND, MAXD);
+#endif
+  in_shape4(dst);
+  for (int i = 0; i < CAP; i++){ idx[i] = in_u64(0, MAXE-1); ASSUME((u64)i >= nd || idx[i] < dst[i]); }
+  int ok = SD <= nd;
+  for (u64 k = 0; k < 3; k++) if (ok && k < SD){ u64 x = sa[SD-1-k], y = dst[nd-1-k]; if (x != y && x != 1) ok = 0; }
+  int r = VBT(sa, data, dst, nd, idx, nd, os, &od, &out);
+  ASSERT((r != 0) == ok, "broadcast_to view exists iff NumPy broadcast_to accepts the target shape");
+  if (r){
+    ASSERT(r == 1 && od == nd && same(os, od, dst, nd), "view shape == target shape");
+    ASSERT(out == data[src_off(sa, SD, idx, nd)], "element i == source element at i with stretched and prepended axes dropped");
+    OBS(out);
+  }
+  OBS(r);
+  REACHED();
+}
+#endif
+#ifdef H_VBT0
+void h_vbt0(void){
+  u64 dst[CAP], idx[CAP], os[CAP] = {0}, od = 0; u32 v = in_any32(), out = 0; u64 nd = in_u64(1, MAXD);
+  in_shape4(dst);
+  for (int i = 0; i < CAP; i++){ idx[i] = in_u64(0, MAXE-1); ASSUME((u64)i >= nd || idx[i] < dst[i]); }
+  int r = k_vbt0_sv(v, dst, nd, idx, nd, os, &od, &out);
+  ASSERT(r == 1 && od == nd && same(os, od, dst, nd), "a number broadcasts to every shape");
+  ASSERT(out == v, "every element is the number");
+  OBS(out);
+  REACHED();
+}
+#endif
+#ifdef H_VBA
+#ifndef DA
+#define DA 2
+#define DB 1
+#endif
+#define VBA CAT(CAT(CAT(k_vba_,DA),_),DB)
+void h_vba(void){
+  u64 sa[CAP] = {1,1,1,1}, sb[CAP] = {1,1,1,1}, e[CAP] = {0}, nr = 0, idx[CAP], os[CAP] = {0}, os2[CAP] = {0}, od = 0, od2 = 0; u32 da[27], db[27], out[2] = {0,0};
+  for (int a = 0; a < DA; a++) sa[a] = in_u64(1, MAXE);
+  for (int a = 0; a < DB; a++) sb[a] = in_u64(1, MAXE);
+  in_cells(da, 27); in_cells(db, 27);
+  int ok = np_bshape(sa, DA, sb, DB, e, &nr);
+  for (int i = 0; i < CAP; i++){ idx[i] = in_u64(0, MAXE-1); ASSUME((u64)i >= nr || idx[i] < e[i]); }
+  int r = VBA(sa, da, sb, db, idx, nr, os, &od, os2, &od2, out);
+  ASSERT((r != 0) == ok, "broadcast_arrays exists iff the shapes are NumPy-compatible");
+  if (r){
+    ASSERT(r == 1 && od == nr && od2 == nr && same(os, od, e, nr) && same(os2, od2, e, nr), "both views have the common (per-axis max) shape");
+    ASSERT(out[0] == da[src_off(sa, DA, idx, nr)], "first operand: element i == its element at i with stretched/prepended axes dropped");
+    ASSERT(out[1] == db[src_off(sb, DB, idx, nr)], "second operand: element i == its element at i with stretched/prepended axes dropped");
+    OBS(out[0]); OBS(out[1]);
+  }
+  OBS(r);
+  REACHED();
+}
+#endif
+#ifdef H_VBA3
+void h_vba3(void){
+  u64 sa[CAP] = {1,1,1,1}, sb[CAP] = {1,1,1,1}, sc[CAP] = {1,1,1,1}, e1[CAP] = {0}, e[CAP] = {0}, n1 = 0, nr = 0, idx[CAP], os[CAP] = {0}, od = 0; u32 da[27], db[27], dc[27], out[3] = {0,0,0};
+  for (int a = 0; a < 2; a++) sa[a] = in_u64(1, MAXE);
+  sb[0] = in_u64(1, MAXE);
+  for (int a = 0; a < 3; a++) sc[a] = in_u64(1, MAXE);
+  in_cells(da, 27); in_cells(db, 27); in_cells(dc, 27);
+  int ok = np_bshape(sa, 2, sb, 1, e1, &n1);
+  if (ok) ok = np_bshape(e1, n1, sc, 3, e, &nr);
+  ASSUME(ok);             /* failure side: h_triple / h_vba */
+  for (int i = 0; i < CAP; i++){ idx[i] = in_u64(0, MAXE-1); ASSUME((u64)i >= nr || idx[i] < e[i]); }
+  int r = k_vba3_2_1_3(sa, da, sb, db, sc, dc, idx, nr, os, &od, out);
+  ASSERT(r == 1 && od == nr && same(os, od, e, nr), "three operands: common shape");
+  ASSERT(out[0] == da[src_off(sa, 2, idx, nr)] && out[1] == db[src_off(sb, 1, idx, nr)] && out[2] == dc[src_off(sc, 3, idx, nr)], "each operand's element");
+  OBS(out[0]);
   REACHED();
 }
 #endif
